@@ -39,7 +39,7 @@ Ltac split_val x :=
   end.
 
 Ltac step_both :=
-  cbn [run bind exec fst snd andthen negb andb orb send send0 ret_ok ret_of_send swallow_terminated];
+  cbn [run bind exec fst snd andthen negb andb orb send send0 ret_ok ret_of_send swallow_terminated report_ret nret_is];
   match goal with
   | |- context [run_instr ?s ?i] =>
       let x := fresh "x" in let s' := fresh "s" in destruct (run_instr s i) as [x s']; split_val x
@@ -162,4 +162,119 @@ Theorem on_channel_completed_is_source : forall k failed s,
   same_run (run (with_self (fun self => gen_OnChannelCompleted self k failed)) s) (run (on_channel_completed k failed) s).
 Proof.
   intros k failed s. unfold with_self, gen_OnChannelCompleted, on_channel_completed, send, send0. both.
+Qed.
+
+(* ---------- impl/events.go: the remaining transport callbacks ---------- *)
+Definition same_run2 (x y : (option msg * nret) * nstate) : Prop :=
+  fst (fst x) = fst (fst y) /\ same_class (snd (fst x)) (snd (fst y)) /\ snd x = snd y.
+
+Ltac finish2 := cbn; try (split; [reflexivity | split; reflexivity]); try reflexivity; try congruence.
+Ltac both2 := repeat step_both; finish2.
+
+Theorem on_response_received_is_source : forall k m s,
+  same_run (run (with_self (fun self => gen_OnResponseReceived self k m)) s) (run (on_response_received k m) s).
+Proof.
+  intros k m s. unfold with_self, gen_OnResponseReceived, on_response_received, gen_pauseOther, gen_resumeOther, pause_other, resume_other, send, send0.
+  both.
+Qed.
+
+Theorem on_data_received_is_source : forall k size index unique s,
+  same_run (run (gen_OnDataReceived k size index unique) s)
+           (snd (fst (run (on_data KReceived k size index unique) s)), snd (run (on_data KReceived k size index unique) s)) /\
+  fst (fst (run (on_data KReceived k size index unique) s)) = None.
+Proof.
+  intros k size index unique s. unfold gen_OnDataReceived, on_data. repeat step_both; cbn; repeat split; reflexivity.
+Qed.
+
+Theorem on_data_queued_is_source : forall k size index unique s,
+  same_run2 (run (gen_OnDataQueued k size index unique) s) (run (on_data KQueued k size index unique) s).
+Proof. intros k size index unique s. unfold gen_OnDataQueued, on_data. both2. Qed.
+
+Theorem on_data_sent_is_source : forall k size index unique s,
+  same_run (run (gen_OnDataSent k size index unique) s)
+           (snd (fst (run (on_data KSent k size index unique) s)), snd (run (on_data KSent k size index unique) s)) /\
+  fst (fst (run (on_data KSent k size index unique) s)) = None.
+Proof.
+  intros k size index unique s. unfold gen_OnDataSent, on_data. repeat step_both; cbn; repeat split; reflexivity.
+Qed.
+
+Theorem error_notices_are_source : forall k,
+  gen_OnRequestCancelled k = send k RequestCancelled (err_arg E) /\
+  gen_OnRequestDisconnected k = send k Disconnected (err_arg E) /\
+  gen_OnSendDataError k = send k SendDataError (err_arg E) /\
+  gen_OnReceiveDataError k = send k ReceiveDataError (err_arg E).
+Proof. intros k. repeat split. Qed.
+
+(* ---------- impl/receiving_requests.go ---------- *)
+Theorem receive_update_request_is_source : forall k m s,
+  same_run2 (run (self <- exec ISelf ;; gen_receiveUpdateRequest self k m) s) (run (receive_update_request k m) s).
+Proof.
+  intros k m s. unfold gen_receiveUpdateRequest, receive_update_request, gen_pauseOther, gen_resumeOther, pause_other, resume_other, send, send0.
+  both2.
+Qed.
+
+Theorem process_update_voucher_is_source : forall k m,
+  gen_processUpdateVoucher k m =
+  if N.eqb (g_vnode m) 0 then Ret (None, ROther)
+  else r <- send k NewVoucher (voucher_arg {| v_type := g_vtype m; v_node := g_vnode m |}) ;; Ret (None, r).
+Proof. intros k m. unfold gen_processUpdateVoucher. destruct (N.eqb (g_vnode m) 0); reflexivity. Qed.
+
+(* ---------- the statements the property files restate ---------- *)
+Definition runs_like (g m : prog nret) : Prop := forall s, same_run (run g s) (run m s).
+
+(* closing a channel, by the user or with an error (C09) *)
+Theorem close_handlers_are_source : forall k,
+  runs_like (with_self (fun self => gen_CloseDataTransferChannel self k)) (close_channel k) /\
+  runs_like (with_self (fun self => gen_CloseDataTransferChannelWithError self k)) (close_with_error k) /\
+  (forall self, gen_cancelMessage self k = cancel_message self k).
+Proof.
+  intros k. split; [|split].
+  - intros s. apply close_channel_is_source.
+  - intros s. apply close_with_error_is_source.
+  - reflexivity.
+Qed.
+
+(* every restart path (C02, C04, C10) *)
+Theorem restart_handlers_are_source : forall k c,
+  runs_like (with_self (fun self => gen_RestartDataTransferChannel self k)) (restart_channel k) /\
+  runs_like (gen_openPushRestartChannel c) (open_push_restart c) /\
+  runs_like (gen_openPullRestartChannel c) (open_pull_restart c) /\
+  runs_like (gen_restartManagerPeerReceivePush c) (restart_received c) /\
+  runs_like (gen_restartManagerPeerReceivePull c) (restart_received c).
+Proof.
+  intros k c. split; [|split; [|split; [|split]]]; intros s.
+  - apply restart_channel_is_source.
+  - apply open_push_restart_is_source.
+  - apply open_pull_restart_is_source.
+  - apply restart_received_push_is_source.
+  - apply restart_received_pull_is_source.
+Qed.
+
+(* pausing and resuming, and the messages that announce them (C11) *)
+Theorem pause_handlers_are_source : forall k,
+  runs_like (with_self (fun self => gen_PauseDataTransferChannel self k)) (pause_channel k) /\
+  runs_like (with_self (fun self => gen_ResumeDataTransferChannel self k)) (resume_channel k) /\
+  (forall self, gen_pauseMessage self k = pause_message self k true /\ gen_resumeMessage self k = pause_message self k false /\
+                gen_pauseOther self k = pause_other self k /\ gen_resumeOther self k = resume_other self k).
+Proof.
+  intros k. split; [|split].
+  - intros s. apply pause_channel_is_source.
+  - intros s. apply resume_channel_is_source.
+  - intros self. repeat split.
+Qed.
+
+(* vouchers and voucher results: who may send them, and recording after sending (C05, C19) *)
+Theorem voucher_handlers_are_source : forall k v,
+  runs_like (with_self (fun self => gen_SendVoucher self k v)) (send_voucher k v) /\
+  runs_like (with_self (fun self => gen_SendVoucherResult self k v)) (send_voucher_result k v).
+Proof.
+  intros k v. split; intros s; [apply send_voucher_is_source | apply send_voucher_result_is_source].
+Qed.
+
+(* the end of the transport's part of a transfer (C01, C03) *)
+Theorem completion_handlers_are_source : forall k failed,
+  runs_like (with_self (fun self => gen_OnChannelCompleted self k failed)) (on_channel_completed k failed) /\
+  runs_like (gen_OnChannelOpened k) (on_channel_opened k).
+Proof.
+  intros k failed. split; intros s; [apply on_channel_completed_is_source | apply on_channel_opened_is_source].
 Qed.
